@@ -134,3 +134,17 @@ def groups():
         gs.append(Group('dbgB_setBreakPoint' + sfx, DBG_PROPS + ['C08'], 'Theo::VM::setBreakPoint (VM/src/vm.cpp)', 'c_setBreakPoint',
                         _dbg_build('setBreakPoint', loops=True, cdefs=[f'TBL_CAP={K}']), timeout=1800, expect_loops=1, tier=tier, bounded=BND % K))
     return gs
+
+
+def act_groups():
+    import actunit
+
+    def build(gw, rl):
+        vmunit.vm_mirror(gw)
+        name = actunit.build_act_unit(gw, rl)
+        return {'c_sources': [os.path.join(CONTRACTS, 'vm_act.c')], 'cxx_sources': [os.path.join(gw, name)], 'cdefs': ['ACT_K=2'], 'cxxdefs': ['MODEL_MAP_CAP=4'],
+                'entry': 'h_getActivationVariables', 'enforce': ['w_getActivationVariables/c_getActivationVariables'], 'dropped': DROPPED_VM,
+                'min_obligations': 10, 'cbmc_extra': ['--unwind', '4', '--unwindset', '__CPROVER_contracts_write_set_check_assigns_clause_inclusion.0:40']}
+    return [Group('dbgU_getActivationVariables', ['C03', 'C05', 'C07', 'C18'], 'Theo::VM::Activation::getActivationVariables (VM/src/vm.cpp)', 'c_getActivationVariables',
+                  build, timeout=900,
+                  bounded='BOUNDED stand-in: frame of at most 2 words, stack map of at most 2 entries, result map of capacity 4, --unwind 4 --unwinding-assertions (two nested loops over a map; data size symbolic)')]
